@@ -1,6 +1,8 @@
 import TonicModel.Model.Status
 import TonicModel.Spec.Status
 import TonicModel.Lemmas.Status
+import TonicModel.Lemmas.FramingHttp
+import TonicModel.Model.FramingAsFound
 /-
 C04 — Status survives the header encoding; reading any headers is total.
 Property theorems only; helper lemmas live in `Lemmas/Status.lean` and `Basic/*`.
@@ -344,6 +346,95 @@ theorem C04_infer (trailers : Option HMap) (http : Nat) :
     unfold inferGrpcStatus
     simp only [hst]
 
+/-! ## a non-200 response WITH a body
+
+The theorems above classify the end of a body that carried no DATA.  `Streaming` (model:
+`Framing.Dec`, `codec/decode.rs`) is what meets a real body.  On the pinned tree it parsed the
+DATA of every response as gRPC frames before it saw the end of the body; on the repaired tree the
+DATA of a response whose HTTP status is not 200 is dropped unread. -/
+
+/-- the HTTP-status table of the stream model (`Framing.inferStatus`) is the spec's table -/
+theorem C04_stream_http_table (http : Nat) : Framing.httpCode http = Spec.Status.httpToCode http := by
+  unfold Framing.httpCode Spec.Status.httpToCode
+  repeat' split
+  all_goals first
+    | rfl
+    | omega
+    | (simp_all [Spec.Status.UNKNOWN]; done)
+
+/-- **HTTP-status table, any body.**  Take a response whose HTTP status is not 200 and ANY body:
+any list of DATA chunks (an HTML page, bytes that look like a gRPC frame, a truncated frame, empty
+chunks — any bytes in any chunking), `Pending`s, and trailers frames without a `grpc-status` (or
+none), with any message codec, negotiated encoding and size limit.  Polled more often than there
+are events, the stream yields, `Pending`s aside, exactly one error whose code is the spec's HTTP
+mapping (400 INTERNAL, 401 UNAUTHENTICATED, 403 PERMISSION_DENIED, 404 UNIMPLEMENTED,
+429/502/503/504 UNAVAILABLE, anything else UNKNOWN), then `None` for ever — and no message. -/
+theorem C04_http_table_any_body {α : Type} (cd : Framing.Codec α) (enc : Option Framing.Enc)
+    (maxSize : Option Nat) (http : Nat) (h200 : http ≠ 200)
+    (evs : List Framing.BodyEv) (hevs : Framing.NoStatusEvs evs = true) (n : Nat) (hn : evs.length < n) :
+    ∃ k, Framing.nonPending
+        (Framing.Dec.run cd { enc := enc, maxSize := maxSize, dir := .response http } n Framing.Dec.init evs) =
+      .err ⟨Spec.Status.httpToCode http, .http⟩ :: List.replicate k .none := by
+  rw [← C04_stream_http_table]
+  exact Framing.run_non200_noStatus cd _ http rfl h200 n Framing.Dec.init evs Framing.idle_init hevs hn
+
+/-- **No message from a non-200 response, ever** — for every event list whatsoever (body errors
+and trailers with a status included), any number of polls. -/
+theorem C04_non200_no_message {α : Type} (cd : Framing.Codec α) (enc : Option Framing.Enc)
+    (maxSize : Option Nat) (http : Nat) (h200 : http ≠ 200) (evs : List Framing.BodyEv) (n : Nat) :
+    Framing.msgsOf
+      (Framing.Dec.run cd { enc := enc, maxSize := maxSize, dir := .response http } n Framing.Dec.init evs) = [] :=
+  Framing.run_non200_no_message cd _ (Framing.skips_of_non200 rfl h200) n evs
+
+/-- **A `grpc-status` in the trailers wins, any body.**  If the first trailers frame of a non-200
+response carries `grpc-status: c`, then whatever DATA and `Pending`s precede it the first ready
+result of the stream is the clean end for `c = 0` and the error with code `c` otherwise. -/
+theorem C04_trailers_status_wins_any_body {α : Type} (cd : Framing.Codec α) (enc : Option Framing.Enc)
+    (maxSize : Option Nat) (http : Nat) (h200 : http ≠ 200) (c : Nat)
+    (evs : List Framing.BodyEv) (hevs : Framing.NoErrEvs evs = true)
+    (hfirst : Framing.firstTr evs = some (some c)) (n : Nat) (hn : evs.length < n) :
+    Framing.firstReady
+        (Framing.Dec.run cd { enc := enc, maxSize := maxSize, dir := .response http } n Framing.Dec.init evs) =
+      some (if c = 0 then .none else .err ⟨c, .user⟩) := by
+  have := Framing.run_non200_first cd { enc := enc, maxSize := maxSize, dir := .response http } http rfl h200 n
+    Framing.Dec.init evs Framing.idle_init hevs hn
+  rw [this, hfirst]
+  by_cases hc : c = 0 <;> simp [Framing.inferStatus, hc]
+
+/-- the codec of the witnesses below: messages are byte strings, every payload decodes -/
+def rawCodec : Framing.Codec Bytes :=
+  { ser := id, de := some, deErr := 13, cz := fun _ b => b, dz := fun _ _ => none }
+
+/-- On the pinned tree as found the HTTP-status classification fails as soon as the response has a
+body.  Witnesses (both replayed on the real code, `inferb` corpus cases): HTTP 503 with an HTML
+body (`<html>`) ends with INTERNAL ("invalid compression flag: 60") instead of UNAVAILABLE. -/
+theorem C04_http_status_with_body_asis_fails :
+    ¬ ∀ (http : Nat), http ≠ 200 → ∀ (evs : List Framing.BodyEv), Framing.NoStatusEvs evs = true →
+      ∀ n, evs.length < n →
+      ∃ k, Framing.nonPending
+          (Framing.Dec.runAsFound rawCodec { enc := none, maxSize := none, dir := .response http } n Framing.Dec.init evs) =
+        .err ⟨Spec.Status.httpToCode http, .http⟩ :: List.replicate k .none := by
+  intro hall
+  obtain ⟨k, hk⟩ := hall 503 (by decide) [.data [60, 104, 116, 109, 108, 62]] (by decide) 2 (by decide)
+  have hrun : Framing.nonPending
+      (Framing.Dec.runAsFound rawCodec { enc := none, maxSize := none, dir := .response 503 } 2 Framing.Dec.init
+        [.data [60, 104, 116, 109, 108, 62]]) = [.err ⟨13, .badFlag⟩, .none] := by decide
+  rw [hrun] at hk
+  cases k with
+  | zero => simp at hk
+  | succ k => simp [List.replicate_succ] at hk
+
+/-- … and a 401 whose body happens to look like a frame (`00 00 00 00 02 6e 6f`) DELIVERS A
+MESSAGE on the pinned tree as found. -/
+theorem C04_non200_no_message_asis_fails :
+    ¬ ∀ (http : Nat), http ≠ 200 → ∀ (evs : List Framing.BodyEv) (n : Nat),
+      Framing.msgsOf
+        (Framing.Dec.runAsFound rawCodec { enc := none, maxSize := none, dir := .response http } n Framing.Dec.init evs) = [] := by
+  intro hall
+  have := hall 401 (by decide) [.data [0, 0, 0, 0, 2, 110, 111]] 3
+  revert this
+  decide
+
 /-- HTTP/2 error-code table (repaired tree): every error code for which gRPC's table gives a
 mapping — CANCEL, REFUSED_STREAM, ENHANCE_YOUR_CALM, INADEQUATE_SECURITY and the eight
 protocol-level codes — is mapped to exactly that code; for all error codes, known or unknown. -/
@@ -403,6 +494,12 @@ example : (fun b : UInt8 => b == 37) Pct.PCT = true ∧
 /- malformed inputs exist on both sides of `C04_read_is_spec` -/
 example : Spec.Status.read [(GRPC_STATUS, HMap.name "016")] = some { code := 2, message := some [], details := some [] } := by decide
 example : (Spec.Status.read [(GRPC_STATUS, [48]), (GRPC_STATUS_DETAILS, HMap.name "QR")]).map (·.details) = some none := by decide
+/- an HTML page cut in two with a `Pending` and a status-less trailers frame satisfies the
+hypotheses of `C04_http_table_any_body`; on the repaired tree the 401 look-alike frame yields no message -/
+example : Framing.NoStatusEvs [.data [60, 104], .pending, .data [116, 109, 108, 62], .trailers none] = true := by decide
+example : Framing.nonPending
+    (Framing.Dec.run rawCodec { enc := none, maxSize := none, dir := .response 401 } 2 Framing.Dec.init
+      [.data [0, 0, 0, 0, 2, 110, 111]]) = [.err ⟨16, .http⟩, .none] := by decide
 example : Spec.Status.h2ToCode 6 = some 13 ∧ Spec.Status.h2ToCode 5 = none ∧ Spec.Status.httpToCode 429 = 14 := by decide
 
 end C04
